@@ -28,6 +28,17 @@ THOROUGH_MAIN_CONFIGS = ['b248s6', 'nostd']
 def run(ctx, rep):
     db = ctx.main
     cfg = db.config
+    # the modulus and the points: the evaluation domain built by StarkDomains::new is 2^(t+c) with a generator of that
+    # order for every t, c (closed forms of C12, evaluation-domain half)
+    import props.c12 as c12
+    items, fields = c12.shape(db)
+    dn = db.fn(common.DOMAINS_NEW, 'C10')
+    if items is None:
+        rep.ob('C10.domain', 'closed-forms', False, f'StarkDomains::new is not one reconstructible struct literal: {fields}', dn.loc(), cfg)
+    else:
+        for name, ok, detail in items:
+            if name in ('log_eval_domain_size', 'eval_domain_size', 'eval_generator'):
+                rep.ob('C10.domain', name, ok, detail, dn.loc(), cfg)
     fn = db.fn(GENERATE_QUERIES, 'C10')
     fl = dataflow.Flow(db, fn)
     dom = fn.dominators()
